@@ -161,8 +161,13 @@ def v_reversed(x):
 def v_len(x):
     if isinstance(x, SSeq):
         return x.length()
-    if isinstance(x, SDict):
+    if isinstance(x, (SDict, SSetView)):
         return x.size()
+    if isinstance(x, SObj):
+        sch = sym.OBJ_SCHEMAS.get(x.cls) or {}
+        if "__len__" in sch:
+            return sch["__len__"](x)
+        raise Unsupported(f"len() of an opaque object of class {x.cls!r}")
     return builtins.len(x)
 
 
@@ -379,14 +384,117 @@ def v_islice(it, *a):
 
 # ---- dictionaries (functional map + key list) ---------------------------------------------
 
-class SDict:
-    """placeholder for symbolic dictionaries (only size is supported so far)"""
+TUP = z3.Function("tuple_of", z3.ArraySort(z3.IntSort(), z3.IntSort()), z3.IntSort(), sym.Obj)
 
-    def __init__(self, n):
-        self.n = n
+
+def box_key(k):
+    """dictionary keys live in the sort Obj: opaque objects as they are, integer tuples through the constructor tuple_of(array, length)
+    (equal arrays and lengths give equal keys; the proof holds for every equality on tuples that is a congruence, in particular the real one)"""
+    if isinstance(k, SObj):
+        return k.e
+    if isinstance(k, (tuple, list)):
+        k = SSeq.of(k)
+    if isinstance(k, SSeq):
+        arr, sort = sym.node_to_array(k.node)
+        if sort != z3.IntSort():
+            raise Unsupported("dictionary key tuple with non-integer entries")
+        return TUP(arr, lift(k.length()))
+    raise Unsupported(f"dictionary key of type {type(k).__name__}")
+
+
+class SDict:
+    """a dictionary with symbolic content: membership has : Obj -> Bool, values val : Obj -> V, and (for dictionaries given as input)
+    the iteration order `keys` - a sequence of pairwise different members"""
+
+    def __init__(self, valtype, has, val, keys=None):
+        self.valtype, self.has, self.val, self.keyseq = valtype, has, val, keys
+
+    def _v(self, e):
+        return vtypes.wrap(self.valtype, e)
+
+    def get(self, k, default=None):
+        e = box_key(k)
+        return sym.ite_value(z3.Select(self.has, e), self._v(z3.Select(self.val, e)), lambda: default)
+
+    def __contains__(self, k):
+        return cur().decide(z3.Select(self.has, box_key(k)))
+
+    def __getitem__(self, k):
+        e = box_key(k)
+        if not cur().decide(z3.Select(self.has, e)):
+            raise KeyError(k)
+        return self._v(z3.Select(self.val, e))
+
+    def __setitem__(self, k, v):
+        e = box_key(k)
+        self.val = z3.Store(self.val, e, lift(v) if not (self.val.sort().range() == z3.RealSort() and lift(v).sort() == z3.IntSort()) else z3.ToReal(lift(v)))
+        self.has = z3.Store(self.has, e, z3.BoolVal(True))
+        self.keyseq = None    # iteration order of a modified dictionary is not tracked
+
+    def _need_keys(self):
+        if self.keyseq is None:
+            raise Unsupported("iteration over a dictionary whose key order is not tracked")
+        return self.keyseq
+
+    def keys(self):
+        return self._need_keys()
+
+    def values(self):
+        ks = self._need_keys()
+        return SSeq(("fun", ks.length(), lambda j: self._v(z3.Select(self.val, lift(ks.get(j))))), "tuple")
+
+    def items(self):
+        ks = self._need_keys()
+        return SSeq(("fun", ks.length(), lambda j: (ks.get(j), self._v(z3.Select(self.val, lift(ks.get(j)))))), "tuple")
+
+    def __iter__(self):
+        return iter(self._need_keys())
 
     def size(self):
-        return self.n
+        return self._need_keys().length()
+
+    def __bool__(self):
+        n = self.size()
+        return n > 0 if isinstance(n, int) else cur().decide(lift(n) > 0)
+
+
+def mk_dict(keycls, valtype, name, with_keys=True):
+    c = cur()
+    vt = vtypes.parse(valtype)
+    has = c.fresh(name + ".has", z3.ArraySort(sym.Obj, z3.BoolSort()))
+    val = c.fresh(name + ".val", z3.ArraySort(sym.Obj, vtypes.sort_of(vt)))
+    keys = None
+    if with_keys:
+        keys = vtypes.mk(("seq", ("obj", keycls), "tuple"), name + ".keys")
+        arr, n = keys.node[2], lift(keys.length())
+        i, j = z3.Ints("i!dk j!dk")
+        o = z3.Const("o!dk", sym.Obj)
+        c.assume(z3.ForAll([i, j], z3.Implies(z3.And(0 <= i, i < j, j < n), z3.Select(arr, i) != z3.Select(arr, j)), patterns=[z3.MultiPattern(z3.Select(arr, i), z3.Select(arr, j))]))
+        c.assume(z3.ForAll([i], z3.Implies(z3.And(0 <= i, i < n), z3.Select(has, z3.Select(arr, i))), patterns=[z3.Select(arr, i)]))
+    return SDict(vt, has, val, keys)
+
+
+class SSetView:
+    """set(seq): only its size is modelled: size <= len(seq), and size == len(seq) iff the elements are pairwise different"""
+
+    def __init__(self, seq):
+        self.seq = SSeq.of(seq)
+
+    def size(self):
+        c = cur()
+        n = lift(self.seq.length())
+        d = c.fresh("ndistinct", z3.IntSort())
+        arr, _ = sym.node_to_array(self.seq.node)
+        i, j = z3.Ints("i!sd j!sd")
+        distinct = z3.ForAll([i, j], z3.Implies(z3.And(0 <= i, i < j, j < n), z3.Select(arr, i) != z3.Select(arr, j)))
+        c.assume(z3.And(d >= 0, d <= n, (d == n) == distinct))
+        return SInt(d)
+
+
+def v_set(x=()):
+    if isinstance(x, SSeq) and not isinstance(x.length(), int):
+        return SSetView(x)
+    return builtins.set(x)
 
 
 # ------------------------------------------------------------------------------------------
@@ -663,5 +771,5 @@ REBOUND_BUILTINS = {
     "len": v_len, "range": v_range, "sum": v_sum, "max": v_max, "min": v_min, "any": v_any, "all": v_all,
     "zip": v_zip, "enumerate": v_enumerate, "reversed": v_reversed, "isinstance": v_isinstance,
     "tuple": v_tuple, "list": v_list, "int": v_int, "float": v_float, "bool": v_bool, "iter": v_iter,
-    "islice": v_islice,
+    "islice": v_islice, "set": v_set,
 }
